@@ -192,6 +192,8 @@ package extractor
 //@   modifies models.URL::*!Hops!Redirects, xmlLeft
 //@   loop for invariant [nothing-yet] len(assets) == 0 && len(outlinks) == 0 && freshslice(rawURLs)
 //@   loop for invariant [left] xml.xmlRemaining() >= 0
+//@   assert HasPrefix(?)#1: [whole-node] bytestext(arg0) == bytestext(tok) // C19: from an XML, RSS or sitemap document every such URL in a text node (the single-URL test looks at the text node as the decoder delivered it)
+//@   assert FindAllString(LinkRegexStrict)#1: [whole-node] arg1 == bytestext(tok) // C19: every such URL in a text node (the link pattern runs over the whole text node)
 //@   loop for variant [token-loop-ends] @C10 xml.xmlRemaining() // C10: nothing a remote server can send makes the crawler spin forever in link and asset extraction (every way back to the head of the token loop follows a RawToken call that consumed input; an error leaves the loop)
 //@   loop range invariant [bounds] -1 <= rangeindex && len(assets) == 0 && len(outlinks) == 0 && freshslice(rawURLs)
 //@   loop range#2 invariant [frame] -1 <= rangeindex && rangeindex < len(rawURLs) && freshslice(assets) && freshslice(outlinks) && (arrof(assets) != 0 ==> !samearray(assets, outlinks))
